@@ -188,6 +188,11 @@ def run(ctx, rep):
                 good = any(strip_generics(callee_name(c)) == "audio::Frame::iter" for c in sl["calls"]) and ("buf" in backward_slice(fb_, ex[0]["a"][0])["fields"] or (fb_ is not b and "buf" in place_fields((capture_source(F, fb_, ex[0]["a"][0]) or (None, {"p": []}))[1] or {"p": []}))) and \
                     not any(a in ("skip", "take", "step_by", "filter", "skip_while", "take_while", "rev", "map", "filter_map", "chain") for a in adapters)
             rep.check("C07.fill", "%s appends the frame's interleaved samples (frame.iter())" % strip_generics(path), good, loc_of(b))
+            # the decoded frame has one consumer, the buffer fill: a second reader of it (a "hand it over directly" path)
+            # delivers part of the frame outside the buffer's accounting
+            its = [t for c in [b] + F.closures_of(b) for _, t in c.calls() if strip_generics(callee_name(t)) in ("audio::Frame::iter", "audio::Frame::channels", "audio::Frame::to_buf")]
+            rep.check("C07.fill", "%s: the decoded frame is consumed once, by the buffer fill" % strip_generics(path), len(its) == 1, loc_of(b), "%d consumers" % len(its),
+                      "the decoded frame is read %d times: besides filling the buffer it is handed out on a path of its own, where block size x channels accounting does not apply" % len(its))
     rep.floor("C07.refill", "refill sites", n, 6)
 
     # ---- C07.eof --------------------------------------------------------------------------------------
